@@ -31,6 +31,7 @@ from deepproto.proto.tracepoint.v1.tracepoint_pb2 import MetricType
 
 from .grpc_service import GRPCService  # noqa: F401
 from .. import logging
+from ..utils import wire_safe
 from ..api.tracepoint.tracepoint_config import LabelExpression, MetricDefinition
 from ..api.tracepoint.trigger import build_trigger, Trigger
 
@@ -46,7 +47,7 @@ def convert_value(value):
     if isinstance(value, bool):
         return AnyValue(bool_value=value)
     if isinstance(value, str):
-        return AnyValue(string_value=value)
+        return AnyValue(string_value=wire_safe(value))
     if isinstance(value, int):
         return AnyValue(int_value=value)
     if isinstance(value, float):
